@@ -575,6 +575,9 @@ func (c *Context) onKilled(message *vivid.OnKilled, behavior vivid.Behavior) {
 		handler.prepareSelfKilledMessage()
 		handler.restarting = false
 		handler.cleanupIfNotRestarting()
+		// 僵尸只应被释放一次：释放后退出僵尸状态，之后的消息（含重复的 OnKill）按已死亡 Actor 进入死信，
+		// 否则每个 OnKill 都会再次通知父节点/监听者并重复发布 ActorKilledEvent
+		c.zombie = false
 		return
 	}
 
